@@ -45,13 +45,18 @@ func (o Outcome) String() string {
 // invoke calls method op.M on world object op.Obj by reflection with
 // materialised arguments and recovers a panic into the outcome.
 func (w *World) invoke(op Op) (out Outcome) {
-	if op.Obj < 0 || op.Obj >= len(w.objs) {
-		out.NoMethod = true
-		return
+	var m reflect.Value
+	if strings.HasPrefix(op.M, "pkg.") {
+		m = pkgFuncs[op.M]
+	} else if strings.HasPrefix(op.M, "aux.") {
+		m = reflect.ValueOf(stackage.Auxiliary(nil)).MethodByName(op.M[4:])
+	} else {
+		if op.Obj < 0 || op.Obj >= len(w.objs) {
+			out.NoMethod = true
+			return
+		}
+		m = w.objs[op.Obj].recv().MethodByName(op.M)
 	}
-	o := w.objs[op.Obj]
-	recv := o.recv()
-	m := recv.MethodByName(op.M)
 	if !m.IsValid() {
 		out.NoMethod = true
 		return
@@ -83,7 +88,9 @@ func (w *World) invoke(op Op) (out Outcome) {
 			out.Panic = panicSite(r)
 		}
 		// Marshal / Init may have replaced the instance behind the handle
-		w.register(op.Obj)
+		if op.Obj >= 0 && op.Obj < len(w.objs) {
+			w.register(op.Obj)
+		}
 	}()
 	res := m.Call(in)
 	for _, r := range res {
@@ -146,3 +153,9 @@ func methodsOf(kind byte) []string {
 
 var stackHandleZero stackage.Stack
 var condHandleZero stackage.Condition
+
+var pkgFuncs = map[string]reflect.Value{
+	"pkg.ConvertStack":     reflect.ValueOf(stackage.ConvertStack),
+	"pkg.ConvertCondition": reflect.ValueOf(stackage.ConvertCondition),
+	"pkg.Cond":             reflect.ValueOf(stackage.Cond),
+}
